@@ -42,3 +42,5 @@ RULES
  - Disk/time: remove scratch files you create under /tmp when done. Keep going until the deliverables are complete and robust; depth of the theorems matters more than breadth of prose.
 
 FINAL REPORT (your last message, concise): files created; list of theorems in Props/C10.v with one line each (full / partial / refuted); what ties the model to the code and the measured volumes/timings; mutations tried and which were caught (and how); findings on the unchanged tree with witnesses and proposed patches; anything in DESIGN.md's C10 section that turned out wrong or infeasible.
+
+NOTE FOR C10: the lexer/parser/evaluator model already exists (engineer of C03 owns it, read-only for you, it may still receive small additions): coq/Model/Lexer.v, coq/Model/Parser.v, coq/Model/ParserGrammar.v, coq/Model/Eval.v and the C03 proofs under coq/Proofs/ (look for Parser*/Lexer*/Eval* files) and coq/Props/C03.v, harness/props/c03.py (shows how real `ParseResults` trees are rendered and compared with the model). Build C10 ON TOP of that model: the name-collection functions on trees, `names_exact` for rendered derivations, and the parser state machine (cache + scratch sets + reset in all exits) in your own file coq/Model/ParserState.v. If you need a lemma about the parser that C03 does not provide, prove it in your own files.
